@@ -28,6 +28,21 @@ data in a buffered handle issues its writes late.  The model takes how each piec
 trace (WCreateB / WOverwriteB, theorems C08_crash_safe_create_buffered / _overwrite_buffered hold for EVERY cutting;
 C08_marker_before_flush_refuted is the unsafe order) and abstracts a record to the piece that delivered it
 (run-length terms); the crash states are classified by the real recovery on the real bytes as everywhere else.
+
+Deaths by UNWINDING (every tier, small scale; thorough: scale m too).  A process rarely dies at a system call: SIGINT becomes a
+KeyboardInterrupt, a SIGTERM handler calls sys.exit, an exception is not caught, and then handlers, __exit__ methods and finally
+blocks run, in the main process and (max_workers > 1: the multiprocessing path of write_patches with its dedicated writer process,
+the pools of build_trees) in the processes it started, which may write on when the main process is gone.  Each case is one REAL
+run of a workload as a process group of its own (c08_driver.py interrupted) that dies (i) when the k-th chunk is requested from
+the data source, for every k, with 1, 2 and 3 workers, by KeyboardInterrupt / SystemExit / OSError raised in the reader, by SIGINT
+with the default handler, by SIGTERM with a handler that exits, by SIGTERM with the default action (thorough: also SIGINT to the
+whole group), or (ii) at the k-th call of a python function of the package for k drawn over the whole run (creation, overwrite,
+tree building, result files).  When the group has come to rest (processes left behind get a moment, then are killed) the directory
+is classified by the same recovery as the crash states and abstracted to a model state; Coq evaluates c08_unwound: the model's
+recovery of that state gives the same class, the class is not "other", and (where the position determines the state: unwinding, or
+one process) the state is one that some crash point of the uninterrupted run leaves as well (prefix_state_b; theorems
+C08_unwound_as_crash, C08_unwound_create_safe / _overwrite_safe; the abort path of write_patches is C08_unwound_create_prefix /
+_err, the regular end on the abort path is C08_finalize_on_abort_refuted).
 """
 import json
 import os
@@ -45,7 +60,12 @@ from crash import trace as tr
 from props import c08_driver as drv
 
 ALLOWED_AXIOMS = []
+U_GRACE = 1.5        # seconds the processes a dead main process left behind get to finish on their own (interrupted runs)
 TRUSTED = [
+    "interrupted runs: the triggers of harness/props/c08_driver.py (a proxy around the data frame that counts chunk requests, "
+    "sys.setprofile counting calls of functions of the package; raise / os.kill of the own pid or process group), the listing of "
+    "a process group from /proc and its SIGKILL when the main process is gone (self-check every run: an uninterrupted run of the "
+    "driver leaves the final directory of the traced run)",
     "strace (syscall recorder, SIGKILL injection) and its parser harness/crash/trace.py; the prefix materialiser "
     "harness/crash/replay.py (self-check every run: replaying the full operation list reproduces the real final directory "
     "byte for byte; thorough: real SIGKILL states equal replayed prefixes)",
@@ -63,15 +83,21 @@ ASSUMPTIONS = [
     "which is what the traces show: a write appears when the buffer is flushed",
     "how a piece above the buffer size is cut into write system calls is whatever the trace shows and is a parameter of the "
     "model (theorems: every cutting, complete or torn records in between)",
-    "workloads are sequential (max_workers=1); the order in which rmtree deletes is whatever the trace shows and is a "
-    "parameter of the model (theorem: every children-first order)",
+    "the traced workloads (crash points at system calls) are sequential (max_workers=1); the order in which rmtree deletes is "
+    "whatever the trace shows and is a parameter of the model (theorem: every children-first order)",
+    "interrupted runs: 'the process dies' = the main process of the job dies at the chosen position; the processes it started get "
+    "%.1f s to finish on their own and are killed then (a job whose main process never returns after ctrl-c is killed after its "
+    "timeout); the directory is used after that, not while they are still writing.  Positions are python-level (k-th chunk request, "
+    "k-th call of a function of the package), in the main process" % U_GRACE,
     "a later measurement = yaw.crosscorrelate with the recovered catalog as reference (binned request) or as unknown "
     "sample (unbinned request) against fixed untouched catalogs",
 ]
 RULE = ("case = (scale, workload, prior state, crash position k, later request); distinct by that tuple; non-trivial when "
         "0 < k < number of operations (a state that exists only if the process dies there); a product workload is "
         "(class, path shape, str|Path, working directory, prior state); scale x = (chunk sizes drawn per run) x "
-        "(create 32-byte records around one io block | overwrite in pieces of several blocks | create 24-byte records)")
+        "(create 32-byte records around one io block | overwrite in pieces of several blocks | create 24-byte records); "
+        "an interrupted run is (scale, workload, position kind reader|call, position, way of dying, number of workers, later "
+        "request), non-trivial when the process died at the position (did not complete)")
 
 HEADER = "From Verif Require Import Prelude FsCrash.\nOpen Scope nat_scope.\n"
 
@@ -1037,7 +1063,6 @@ U_LABEL = ["error", "OTHER", "old", "new", "old=new"]
 U_RAISING = ["KeyboardInterrupt", "SystemExit", "OSError", "SIGINT", "SIGTERM-exit"]     # die by unwinding, main process only
 U_CALL_QUICK = ["create", "overwrite", "build_first", "rebuild_edges", "corrfunc_over", "corrdata_over"]
 U_CALL_MORE = ["metadata", "rebuild_closed", "rebuild_forced", "corrfunc_fresh", "corrdata_fresh", "p00_CorrData", "p07_CorrFunc"]
-U_GRACE = 1.5        # seconds the processes the dead main process left behind get to finish on their own
 U_PARALLEL = 10
 
 
@@ -1275,7 +1300,7 @@ def unwound_compare(ctx, header, ucases):
             terms.append("c08_unwound %s %s %s %d %d %s" % (fixed, c["w"]["coq_name"], c["lterm"], TAG.get(c["req"], 0), c["cls"],
                                                            "true" if c["chk"] else "false"))
     t0 = time.time()
-    codes = ctx.shards("Unwound_C08", header, terms, shard=400)
+    codes = ctx.shards("Unwound_C08", header, terms, shard=12)
     ctx.log("interrupted runs: %d terms evaluated in Coq in %.1fs (at the same time as the crash points)" % (len(terms), time.time() - t0))
     for n, c in enumerate(ucases):
         c["code"] = {False: codes[2 * n], True: codes[2 * n + 1]}
